@@ -215,6 +215,10 @@ def explore_c08(ctx, res, replay_ops=None):
         if it and it[0] == "ans":
             res.nontrivial.add((st, t[6], t[7], t[8]))
         res.sample({"op": op, "stored_cost_hex": st, "impl": im})
+        if t[4] == "-":
+            # no Subscription-Id at all: not "a known subscriber"; the code dereferences nil and the connection is closed
+            res.outside_domain["no-subscription-id"] += 1
+            continue
         if it and it[0] == "panic":
             res.violation("crash", "the rating server panicked (stopped answering) on a request",
                           _history(r.ops, i) + ["# impl: " + im])
@@ -1009,10 +1013,26 @@ def explore_c17(ctx, res, replay_ops=None):
                 back = bytes.fromhex(im.split("back=")[1]).decode(errors="replace")
                 if back != name:
                     res.violation("oracle", "C17: AVP %s and %s share code %s" % (name, back, im.split()[1]), [op, "# impl: " + im])
+    # (d) what the two servers decode: every request, with its optional AVPs present or absent, must be handled as sent -
+    #     the Lean server models are driven by exactly the fields of the request
+    if replay_ops is None or any(o.startswith(("rf ", "abmf ")) for o in (replay_ops or [])):
+        for stream in ("rf", "abmf"):
+            rr = ctx.stream(stream, n_for(ctx, 400, 6000), ops=[o for o in (replay_ops or []) if o.startswith(stream + " ")] or None)
+            for i, (op, im, mo) in enumerate(zip(rr.ops, rr.impl, rr.model)):
+                tt = op.split()
+                if tt[1] in ("set", "reset"):
+                    continue
+                res.evaluations += 1
+                res.dist["server-decode:" + stream] += 1
+                if im != mo:
+                    res.violation("oracle", "C17: the %s server handled a request as if it carried other field values than were sent "
+                                  "(optional AVP absent / stale field)" % stream, _history(rr.ops, i) + ["# impl:  " + im[:600], "# model: " + mo[:600]])
+                    break
     res.rule = ("(a) randomly filled ServiceUsageRequest/Response and AccountDebitRequest/Response (every field at boundary and random "
                 "values of its AVP type, each optional grouped AVP present/absent) through Marshal -> Serialize -> ReadMessage -> "
                 "Unmarshal, compared field by field; (b) basic AVP data encodings compared with the Lean codec model; (c) every tag name "
-                "looked up by name and back by code; non-trivial = message round trip")
+                "looked up by name and back by code; (d) request histories against the real rating and account-balance servers with optional "
+                "AVPs present/absent (Subscription-Id, Requested-Action), compared with the Lean server models; non-trivial = message round trip")
 
 
 PROPS["C17"] = dict(lean=["ChfVerif.Props.C17"], explore=explore_c17, gen=[gen_table("diameter", "Diameter.lean")],
